@@ -15,6 +15,7 @@ import (
 	"verif/harness/internal/dgen"
 	"verif/harness/internal/gen"
 	"verif/harness/internal/model"
+	"verif/harness/internal/ref"
 	"verif/harness/internal/rval"
 	"verif/harness/internal/tsys"
 )
@@ -145,7 +146,11 @@ func loadPair(x *core.Ctx, c *core.Case) (*ast.Schema, *tsys.Merged, *ast.QueryD
 	ssrc := c.Get("schema")
 	sd, perr := parser.ParseSchema(&ast.Source{Name: "schema.graphql", Input: ssrc})
 	if perr != nil {
-		x.HarnessBug("schema text does not parse: " + perr.Error())
+		if grammarAccepts(ref.TypeSystemGrammar, ssrc) {
+			x.Violate("schema-parse-fails("+firstWords(templateOf(perr.Error()), 4)+")", perr.Error(), "parses: derivable from the type-system grammar")
+		} else {
+			x.HarnessBug("schema text does not parse: " + perr.Error())
+		}
 		return nil, nil, nil
 	}
 	schema, err := gqlparser.LoadSchema(&ast.Source{Name: "schema.graphql", Input: ssrc})
@@ -157,7 +162,11 @@ func loadPair(x *core.Ctx, c *core.Case) (*ast.Schema, *tsys.Merged, *ast.QueryD
 	doc, derr := parser.ParseQuery(&ast.Source{Name: "doc.graphql", Input: c.Get("doc")})
 	if derr != nil {
 		if c.Get("expect") != "blind" {
-			x.HarnessBug("generated document does not parse: " + derr.Error() + "\n" + c.Get("doc"))
+			if grammarAccepts(ref.ExecutableGrammar, c.Get("doc")) {
+				x.Violate("document-parse-fails("+firstWords(templateOf(derr.Error()), 4)+")", derr.Error()+"\n"+c.Get("doc"), "parses: derivable from the executable grammar")
+			} else {
+				x.HarnessBug("generated document does not parse: " + derr.Error() + "\n" + c.Get("doc"))
+			}
 		}
 		return nil, nil, nil
 	}
